@@ -325,10 +325,10 @@ func R13(scopes ...string) func(p *core.Prog) *core.Result {
 								continue
 							}
 							st, ok := fa.X.Type().Underlying().(*types.Pointer).Elem().Underlying().(*types.Struct)
-							if !ok || st.Field(fa.Field).Name() != "current" {
+							if !ok || core.FieldName(st, fa.Field) != "current" {
 								continue
 							}
-							if n := namedOf(fa.X.Type()); n == nil || n.Obj().Name() != "lengthStack" {
+							if n := namedOf(fa.X.Type()); n == nil || core.TypeName(n) != "lengthStack" {
 								continue
 							}
 							sources++
